@@ -77,6 +77,7 @@ def long_execs(rng, n, big):
         v = rng.choice([2, 3, 3, 3, 1])
         ops = []
         puts = 0
+        dns = []
         for _ in range(rng.randrange(8, 30)):
             r = rng.random()
             if r < 0.55 or puts == 0:
@@ -84,12 +85,15 @@ def long_execs(rng, n, big):
                 ops.append(fix_id(rnd_blob(rng, dn=dn, nn=rng.choice([0, 1, 12, 255]), mn=rng.choice([0, 10, 255]),
                                            pn=rng.choice([0, 0, 20, 2000]))))
                 puts += 1
+                dns.append(dn)
             elif r < 0.8:
                 ops.append({"ev": "get", "i": rng.randrange(1, puts + 1)})
             elif r < 0.9:
                 ops.append({"ev": "scan", "body": rng.random() < 0.7})
             else:
-                ops.append({"ev": "alter", "i": rng.randrange(1, puts + 1), "pos": rng.randrange(0, 40), "mask": rng.randrange(1, 256)})
+                i = rng.randrange(1, puts + 1)       # alter a data byte of record i (python knows the lengths it chose)
+                if dns[i - 1] > 0:
+                    ops.append({"ev": "alter", "i": i, "pos": rng.randrange(0, dns[i - 1]), "mask": rng.randrange(1, 256)})
         ops += [{"ev": "get", "i": i} for i in range(1, puts + 1)] + [{"ev": "scan", "body": True}]
         out.append(({"ev": "reset", "v": v, "start": 8}, ops))
     return out
@@ -114,24 +118,25 @@ def run(ctx):
     # 1. laws of the layout definition (arithmetic over the boundary grid, decode(encode) over the small blob family:
     #    invariant LawsOnce) and 2. small files: scan/decode laws on every reachable file (FileLaws); the same TLC run
     #    emits every history (G1)
-    ctx.notes["grid_points_checked"] = 3 * 256 * (5 * 4 * 4 * 3 if level == 1 else 8 * 7 * 7 * 5)
-    mc = ctx.instance("MC_NeedleFiles", "NeedleLayout", "NeedleLayout_mc.cfg", {"MaxOps": 3, "Level": level})
-    hists = ctx.generate(mc, workers=4, timeout=1200)
-    hists.sort(key=lambda h: json.dumps(h, sort_keys=True))   # TLC emits in worker order
     execs = []
-    for h in hists:
-        ops = list(h["ops"])
-        nput = sum(1 for o in ops if o["ev"] == "put")
-        ops += [{"ev": "get", "i": i} for i in range(1, nput + 1)] + [{"ev": "scan", "body": True}, {"ev": "scan", "body": False}]
-        execs.append(({"ev": "reset", "v": h["ver"], "start": h["start"]}, ops))
-    if not ctx.thorough:
-        rng.shuffle(execs)
-        execs = execs[:250]
-    ctx.notes["tlc_histories_used"] = len(execs)
-    k = 10 if ctx.thorough else 1
-    execs += grid_execs(rng, 256 * k)
-    execs += flip_execs(rng, 12 * k)
-    execs += long_execs(rng, 25 * k, [4095, 4096, 5000, 70000] if ctx.thorough else [4095, 4096])
+    if not ctx.replay:
+        ctx.notes["grid_points_checked"] = 3 * 256 * (4 * 4 * 4 * 2 if level == 1 else 8 * 7 * 7 * 5)
+        mc = ctx.instance("MC_NeedleFiles", "NeedleLayout", "NeedleLayout_mc.cfg", {"MaxOps": 3, "Level": level})
+        hists = ctx.generate(mc, workers=4, timeout=1200)
+        hists.sort(key=lambda h: json.dumps(h, sort_keys=True))   # TLC emits in worker order
+        for h in hists:
+            ops = list(h["ops"])
+            nput = sum(1 for o in ops if o["ev"] == "put")
+            ops += [{"ev": "get", "i": i} for i in range(1, nput + 1)] + [{"ev": "scan", "body": True}, {"ev": "scan", "body": False}]
+            execs.append(({"ev": "reset", "v": h["ver"], "start": h["start"]}, ops))
+        if not ctx.thorough:
+            rng.shuffle(execs)
+            execs = execs[:250]
+        ctx.notes["tlc_histories_used"] = len(execs)
+        k = 10 if ctx.thorough else 1
+        execs += grid_execs(rng, 256 * k)
+        execs += flip_execs(rng, 12 * k)
+        execs += long_execs(rng, 25 * k, [4095, 4096, 5000, 70000] if ctx.thorough else [4095, 4096])
     script = os.path.join(ctx.out, "script.ndjson")
     if ctx.replay:
         script = ctx.replay
